@@ -180,8 +180,10 @@ Section WithMachines.
   (** ** rjson.go wrappers.  A [*Buffer] is [option (list Z)]: nil pointer or its stackBuf. *)
   Definition buffer := option (list Z).
   Definition buf_stack (b : buffer) : list Z := match b with Some s => s | None => [] end.
+  (** the whole Go slice [stack] at the end of a run = [s_stack s], computed linearly *)
+  Definition stack_of (s : st) : list Z := rev_append (s_live s) (s_junk s).
   Definition buf_after (b : buffer) (r : mres) : buffer :=
-    match b, r with Some _, MDone _ _ s => Some (s_stack s) | _, _ => b end.
+    match b, r with Some _, MDone _ _ s => Some (stack_of s) | _, _ => b end.
 
   (** public result: [inl (p, err)] or [inr] = abnormal (panic / no termination) *)
   Definition pres := (Z * option errk + unit)%type.
